@@ -916,9 +916,14 @@ def one_history(ctx, r, nops, out):
         return r.choice([f'c{ncon[0]}', ncon[0] + 100, ('c', ncon[0])])
 
     nsteps = r.randint(1, nops)
+    pending_flip = None
     seed_ops = [r.choice(['addvar', 'addvar', 'objm', 'conm', 'conc', 'cont', 'discv']) for _ in range(min(nsteps, r.randint(0, 6)))]
     for step in range(nsteps):
         k = seed_ops[step] if step < len(seed_ops) else r.choice(OPS)
+        if pending_flip is not None and pending_flip in ref.vars and r.random() < .7:
+            k = 'flip'      # the SECOND flip of a variable of a marked constraint (restores the one-hot form: the mark is cleared)
+        else:
+            pending_flip = None
         vs = list(ref.vars)
         cls_ = list(ref.cons)
         anyv = lambda: r.choice(vs) if vs and r.random() < .93 else 'zz'   # noqa: E731
@@ -1059,7 +1064,26 @@ def one_history(ctx, r, nops, out):
                 try_new = True
                 spec = lambda: ref2.fix_copy(fx)   # noqa: E731
         elif k == 'flip':
-            v = anyv(); line = f'flip {lab(v)}'; code = f'cqm.flip_variable({v!r})'
+            v = anyv()
+            if r.random() < .5:
+                # round 8: aim at the branch of the Python `flip_variable` that CLEARS a mark — a variable whose flip makes a marked
+                # constraint one-hot again (e.g. the second flip of a variable of a discrete constraint), else any variable of a marked one
+                cand = []; anym = []
+                for c_ in ref.cons.values():
+                    if c_.marked:
+                        for u_ in c_.p.order:
+                            if ref.vars[u_][0] == 'BINARY':
+                                anym.append(u_)
+                                t_ = ref.copy(); t_.flip(u_)
+                                if any(o.startswith('mark cleared') for o in t_.flip_outcomes):
+                                    cand.append(u_)
+                if cand or anym:
+                    v = r.choice(cand) if cand and r.random() < .7 else r.choice(anym)
+            if pending_flip is not None:
+                v, pending_flip = pending_flip, None
+            elif v in ref.vars and any(c_.marked and v in c_.p.lin for c_ in ref.cons.values()):
+                pending_flip = v
+            line = f'flip {lab(v)}'; code = f'cqm.flip_variable({v!r})'
             spec = lambda: ref2.flip(v)   # noqa: E731
         elif k == 'cvt':
             v = anyv(); vt = r.choice(['BINARY', 'SPIN', 'INTEGER', 'INTEGER', 'REAL']); line = f'cvt {vt} {lab(v)}'
